@@ -323,11 +323,14 @@ def num_binop(op, a, b):
         if z3.is_int(za) and z3.is_int(zb):
             # Python floor division == SMT-LIB div for positive divisor; for negative divisor differs.
             return z3.If(zb > 0, za / zb, -((-za) / (-zb)) if False else z3.If(za % zb == 0, za / zb, za / zb)) if False else _floordiv(za, zb)
-        raise OutsideSubset("// on reals")
+        zar, zbr = to_real(za), to_real(zb)
+        return z3.ToReal(z3.ToInt(zar / zbr))
     if op == "%":
         if z3.is_int(za) and z3.is_int(zb):
             return za - zb * _floordiv(za, zb)
-        raise OutsideSubset("% on reals")
+        # Python float modulo: x - y * floor(x / y) (the sign follows the divisor); z3's ToInt is floor
+        zar, zbr = to_real(za), to_real(zb)
+        return zar - zbr * z3.ToReal(z3.ToInt(zar / zbr))
     if op == "**":
         if isinstance(b, int) and not isinstance(b, bool):
             if b == 0:
@@ -841,6 +844,10 @@ class Engine:
                     if (amod, iname) in self.module_values:
                         v = self.module_values[(amod, iname)]
                         return v(self) if callable(v) else v
+                    if iname in am.assigns:
+                        # a module-level constant of the other module (e.g. an exported list of keys): same rules as for the
+                        # module's own constants (empty mutable containers are state, not constants)
+                        return self.global_name(iname, Env(None, {"__module__": amod}))
                     raise OutsideSubset("imported name {} from {}".format(iname, amod))
                 if key in self.externals:
                     return self.externals[key]
